@@ -240,7 +240,8 @@ def main():
         "checks": checks,
         "not_applicable": na,
         "notes": "Model-based verification with explicit TLA+ specifications; see DESIGN.md.  Genuine defects found on the pinned tree "
-                 "were repaired with 'fix:' commits in /repo and are listed as fixed in known_findings.jsonl.",
+                 "were repaired with 'fix:' commits in /repo and are listed as fixed in known_findings.jsonl.  Beyond the listed properties: "
+                 "./check X01 (corpus.post_process_wrapper against CorpusWrap.tla).  Seeded changes and what detects them: /verif/seeded, DESIGN.md Appendix B.",
     }
     with open(os.path.join(VERIF, "MANIFEST.json"), "w") as f:
         json.dump(man, f, indent=1)
